@@ -283,6 +283,10 @@ def validate_scalar(value: Any, dtype: DataType) -> Any:
             )
         return None
 
+    # An object column accepts any value
+    if dtype.kind is object:
+        return value
+
     vtype = type(value)
 
     # Exact match
